@@ -316,6 +316,12 @@ class Engine:
             if len(hits) != 1:
                 raise AnalysisError("row slice [%s:%s] of %s does not decode uniquely (%d matches)" % (A.show(s), A.show(e), arr.name, len(hits)))
             return hits[0]
+        # contiguous slice outside loops spanning SEVERAL whole rows (a vectorised row loop): rows r0 .. r0+m-1 of one
+        # family.  Decoded as the row slice of a synthetic loop J in [0, m) -- one loop per block height m, so that
+        # blocks of equal height combine element-wise exactly as the statements of an explicit `for j` loop would
+        blk = self._decode_block(arr, s, e)
+        if blk is not None:
+            return blk
         # contiguous slice outside loops: one row of the layout
         hits = []
         for fam, base, W in self.widths(arr.role):
@@ -343,6 +349,44 @@ class Engine:
         if len(hits) != 1:
             raise AnalysisError("slice [%s:%s] of %s does not decode to one row of the layout (%d matches)" % (A.show(s), A.show(e) if e is not None else "", arr.name, len(hits)))
         return hits[0]
+
+    def _decode_block(self, arr, s, e):
+        A = self.alg
+        ny = self.ny
+        found = []
+        for fam, base, W in self.widths(arr.role):
+            if arr.role == "ff" and e is None and fam != "jf":
+                continue
+            total_rows = ny + 1 if fam == "jf" else ny
+            end = e
+            if end is None:
+                end = base + total_rows * W
+            elif A.sign(end) == "-":
+                end = base + total_rows * W + end          # negative stop: counted from the end of the block
+            off = A.sub(s, base)
+            for r0 in (0, 1, 2):
+                if not A.equal(off, A.const(r0) * W):
+                    continue
+                L = A.sub(end, s)
+                for k in range(0, 4):
+                    m = total_rows - k
+                    if r0 + 0 > 2:
+                        continue
+                    if A.equal(L, m * W) and not A.equal(m, A.const(1)) and m.const_value() is None:
+                        found.append((fam, r0, m, W))
+        if len(found) != 1:
+            return None
+        fam, r0, m, W = found[0]
+        key = A.key(m)
+        self._block_loops = getattr(self, "_block_loops", {})
+        if key not in self._block_loops:
+            name = "J_%d" % len(self.loops)
+            v = A.sym(name)
+            lid = next(iter(A.atoms_of(v)))
+            self.loops[lid] = (name, A.const(0), m)
+            self._block_loops[key] = lid
+        lid = self._block_loops[key]
+        return (fam, "t+0", "j%+d" % r0, ("row", W, lid))
 
     def decode_family(self, arr, famidx):
         A = self.alg
